@@ -219,6 +219,15 @@ def run(chk, tier, seed, replay=None):
             force_children(rng, c['world'], c['o'])
             c['mode'] = 'cli'
     cases += rcases
+    # -D: the debugger (its stdin is at end of file) ends the run after the first failure
+    pcases = corecheck.gen_cases(rng, graphs, 3 if tier == 'quick' else 30,
+                                 dict(prof_good, outcomes=['pass', 'error', 'fail'], faults=(0.0, 0.0, 0.0),
+                                      tests_per_layer=(1, 2), unit_tests=(1, 2)), 'pm')
+    for c in pcases:
+        c['o'] = {'verbose': rng.choice([0, 1]), 'pm': True}
+        tid = sorted(c['world']['tests'])[0]
+        c['world']['tests'][tid] = dict(worlds.OUTCOMES['error'], kind='error')
+    cases += pcases
     for c in cases[:2] + tcases[:2]:
         chk.sample({'world': c['world'], 'options': c['o'], 'mode': c['mode'],
                     'trouble': c.get('trouble', '')})
